@@ -139,9 +139,8 @@ def main(repo, out=None):
     except OSError as ex:
         consts, table, unrec = {}, None, ["cannot read %s: %s" % (SRC, ex)]
     G = ["(* GENERATED by translators/time_consts.py from %s.  Rewritten on every run; do not edit. *)" % SRC,
-         "From Coq Require Import ZArith List String.", "Import ListNotations.", "Local Open Scope Z_scope.", "",
-         "(* The integer types that occur in datetime.rs. *)",
-         "Inductive ity := I8 | U8 | I32 | U32 | I64 | U64 | USIZE.", ""]
+         "From Coq Require Import ZArith List String.", "From TV Require Import Time.Ints.", "Import ListNotations.",
+         "Local Open Scope Z_scope.", ""]
     for name in CONSTS:
         ty, val, text = consts.get(name, ("i64", 0, "<unrecognised>"))
         G.append("(* const %s: %s = %s; *)" % (name, ty, text))
